@@ -52,14 +52,9 @@ func (v *fileView) nonScriptText() string {
 // redundancyCheck applies (d) and (e) to one output.
 func redundancyCheck(k *h.Case, rp *spec.Program, v *fileView, out, tag string) bool {
 	f := v.f
-	userGoto := map[string]bool{}
+	userGoto := userTargetsOf(rp)
 	userLabel := map[string]bool{}
 	for _, s := range scriptsOf(rp) {
-		allCmds(s.Body, func(c *spec.Cmd) {
-			if c.Name == "goto" && len(c.Args) == 1 {
-				userGoto[strings.Join(c.Args[0].Toks, " ")] = true
-			}
-		})
 		var ls []string
 		userLabelsOf(s.Body, &ls)
 		for _, l := range ls {
@@ -142,6 +137,7 @@ func runC05(ctx *h.Ctx) int {
 	prof := profFull()
 	ctx.RunCases("optimize-pairs", ctx.N(4000, 200000), func(k *h.Case) {
 		p := prof
+		p.WCondGoto = 3
 		if k.Index%2 == 0 {
 			p.PTextArg, p.PMovesArg, p.WPory, p.PAuto = 0.1, 0.05, 0, 0.1
 			p.MaxDepth = 4
@@ -208,8 +204,9 @@ func runC05(ctx *h.Ctx) int {
 				}
 			}
 			// (a) behaviour
-			vmo := &asm.VM{F: vo.f, Sec: so}
-			vmn := &asm.VM{F: vn.f, Sec: sn}
+			ut := userTargetsOf(rp)
+			vmo := &asm.VM{F: vo.f, Sec: so, UserTargets: ut}
+			vmn := &asm.VM{F: vn.f, Sec: sn, UserTargets: ut}
 			for si := 0; si < ctx.N(6, 16); si++ {
 				st := &ref.HashState{Seed: h.Hash64(k.C.Seed, k.Sub, k.Index, s.Entry, si), Cands: g.Cands()}
 				to, tn := vmo.Run(st), vmn.Run(st)
